@@ -30,6 +30,30 @@ CHECKS = {
              'after Abort / failed commit, unchanged by mutation of getter/entity/result objects, earlier TransactionResults unchanged.',
         note='Trusted: as C02. Commit failures only through inputs that make the real commit raise. Two known findings listed in known_findings.json.',
         design_ref='6/C03'),
+    'C01': dict(
+        technique='TLA+ specs Mdib.tla (provider histories) + Mirror.tla (in-order case) model-checked by TLC; behaviours executed on a real provider/consumer pair over a loop-back transport; TLC trace validation (MirrorTrace.tla)',
+        text='TLC-simulated transaction histories (all transaction kinds, descriptor create/update/delete/re-create, both interfaces) '
+             'run on a real SdcProvider + SdcConsumer + ConsumerMdib (sync, async and reference-parameter managers); every message is '
+             'serialised, XSD-validated and parsed by the repository code. After every commit TLC compares the canonical projections of '
+             'provider and consumer MDIB (descriptors, parents, states, context states, versions, MdibVersion/SequenceId/InstanceId, rest digest) '
+             'and the change notifications against the reported/changed entities.',
+        note='Trusted: loop-back transport (verif/loopback.py) instead of sockets, synchronous consumer dispatcher, projection/canonicalisation, virtual provider clock.',
+        design_ref='6/C01'),
+    'C04': dict(
+        technique='TLA+ spec Mdib.tla behaviours -> real provider wire messages parsed back -> TLC trace validation (MirrorTrace.tla report_* clauses); write order: Threads.tla interleavings (see C07 engine)',
+        text='For every commit of the simulated histories TLC judges the reports put on the wire: version triple = committed triple, '
+             'every reported descriptor/state has the version and content token of the commit, only changed entities are reported, every changed '
+             'entity is reported, parts are grouped under the owning MDS, every message passed XSD validation (sync and async managers).',
+        note='Trusted: as C01. Order under concurrent writers and the periodic store are covered by the scheduled-thread runs.',
+        design_ref='6/C04'),
+    'C06': dict(
+        technique='TLA+ spec Mirror.tla (report log, arbitrary delivery, consumer gates, restart, load with snapshot+buffer) model-checked by TLC; behaviours executed with a holding/duplicating loop-back network; TLC trace validation (MirrorFaultTrace.tla)',
+        text='TLC exhaustively checks NoRegress, StaleIsNoop, DupIsNoop, Published, Frozen, LoadNotOlder and the in-order Mirror case '
+             '(3 handles, <=4 commits, <=5 deliveries, restart). Simulated delivery schedules (drop, duplicate, reorder, replay, restart with new '
+             'SequenceId or InstanceId, reload with traffic before/after the GetMdib snapshot) are executed on a real pair whose notifications are '
+             'held by the network; TLC judges every consumer step.',
+        note='Trusted: as C01; delivery unit = notifications of one commit; restart emulated on the same provider object.',
+        design_ref='6/C06'),
 }
 
 NOT_YET = 'check not built yet in this round (see DESIGN.md section 10 build order); no claim made'
